@@ -31,16 +31,22 @@ PATCHES = [3, 5, 7]
 def gen_case(rng, thorough):
     big = 10 if thorough else 8
     t = rng.random()
-    if t < 0.36:
+    if t < 0.32:
         cms, fam = M.gen_batch(rng, big)
-        return {"kind": "rough", "cms": cms, "thr": M.gen_threshold(rng, cms), "family": fam}
-    if t < 0.78:
+        return {"kind": "rough", "cms": cms, "thr": M.gen_threshold(rng, cms), "family": fam,
+                "dtype": M.gen_dtype(rng)}
+    if t < 0.76:
         cms, fam = M.gen_batch(rng, big)
-        return {"kind": "refine", "cms": cms, "thr": M.gen_threshold(rng, cms), "p": rng.choice(PATCHES),
-                "family": fam}
-    if t < 0.81:
+        return {"kind": "refine", "cms": cms, "thr": M.gen_threshold(rng, cms), "p": M.gen_patch_size(rng),
+                "family": fam, "dtype": M.gen_dtype(rng, cms, refine=True)}
+    if t < 0.79:
         cms, fam = M.gen_batch(rng, big)
-        return {"kind": "refine_none", "cms": cms, "thr": M.gen_threshold(rng, cms), "family": fam}
+        return {"kind": "refine_none", "cms": cms, "thr": M.gen_threshold(rng, cms), "family": fam,
+                "dtype": M.gen_dtype(rng)}
+    if t < 0.81:        # any other refinement string: the grid-aligned peaks are returned unchanged
+        cms, fam = M.gen_batch(rng, big)
+        return {"kind": "refine_other", "cms": cms, "thr": M.gen_threshold(rng, cms), "family": fam,
+                "p": M.gen_patch_size(rng), "dtype": "float32"}
     if t < 0.90:
         H, W = rng.randint(2, big), rng.randint(2, big)
         n = rng.randint(1, 4)
@@ -50,7 +56,7 @@ def gen_case(rng, thorough):
         if rng.random() < 0.5:                      # corners / borders
             centres[0] = rng.choice([(0, 0), (W - 1, 0), (0, H - 1), (W - 1, H - 1)])
         inds = [rng.randrange(n) for _ in range(k)]
-        return {"kind": "crop", "imgs": imgs, "centres": centres, "inds": inds, "p": rng.choice(PATCHES)}
+        return {"kind": "crop", "imgs": imgs, "centres": centres, "inds": inds, "p": M.gen_patch_size(rng)}
     if t < 0.97:
         h, w = rng.randint(1, 7), rng.randint(1, 7)
         n = rng.randint(1, 3)
@@ -71,14 +77,14 @@ def gen_case(rng, thorough):
 
 def term(c):
     k = c["kind"]
-    if k in ("rough", "refine_none"):
+    if k in ("rough", "refine_none", "refine_other"):
         return f"CRough {M.cms_lit(c['cms'])} {core.cq(c['thr'])}"
-    if k == "refine":
-        return f"CRefine {M.cms_lit(c['cms'])} {core.cq(c['thr'])} {(c['p'] - 1) // 2}%nat"
+    if k == "refine":       # the patch by its size p (odd: integer-centred window; even: half-pixel samples)
+        return f"CRefineP {M.cms_lit(c['cms'])} {core.cq(c['thr'])} {c['p']}%nat"
     if k == "crop":
         cs = core.clist(c["centres"], lambda xy: f"({xy[0]}%nat, {xy[1]}%nat)")
-        return (f"CCrop {core.clist(c['imgs'], M.cmap_lit)} {cs} {core.clist(c['inds'], core.cnat)} "
-                f"{(c['p'] - 1) // 2}%nat")
+        return (f"CCropP {core.clist(c['imgs'], M.cmap_lit)} {cs} {core.clist(c['inds'], core.cnat)} "
+                f"{c['p']}%nat")
     if k == "intreg":
         return (f"CIntReg {core.clist(c['xv'], core.cq)} {core.clist(c['yv'], core.cq)} "
                 f"{core.clist(c['Ps'], M.cmap_lit)}")
@@ -128,21 +134,25 @@ def peaks_out(res):
             zip(pts.tolist(), vals.tolist(), si.tolist(), ci.tolist())]
 
 
-def impl_rough(cms, thr, mods):
+def impl_rough(cms, thr, mods, dtype="float32"):
     torch, pf, _ = mods
-    return peaks_out(pf.find_local_peaks_rough(M.to_tensor(cms, torch), threshold=float(thr)))
+    return peaks_out(pf.find_local_peaks_rough(M.to_tensor(cms, torch, dtype), threshold=float(thr)))
 
 
 def run_impl(c, mods):
     torch, pf, mcb = mods
     k = c["kind"]
+    dt = c.get("dtype", "float32")
     if k == "rough":
-        return impl_rough(c["cms"], c["thr"], mods)
+        return impl_rough(c["cms"], c["thr"], mods, dt)
     if k == "refine_none":
-        return peaks_out(pf.find_local_peaks(M.to_tensor(c["cms"], torch), threshold=float(c["thr"]),
+        return peaks_out(pf.find_local_peaks(M.to_tensor(c["cms"], torch, dt), threshold=float(c["thr"]),
                                              refinement=None))
+    if k == "refine_other":
+        return peaks_out(pf.find_local_peaks(M.to_tensor(c["cms"], torch, dt), threshold=float(c["thr"]),
+                                             refinement="local", integral_patch_size=c["p"]))
     if k in ("refine", "refine_oracle_only"):
-        return peaks_out(pf.find_local_peaks(M.to_tensor(c["cms"], torch), threshold=float(c["thr"]),
+        return peaks_out(pf.find_local_peaks(M.to_tensor(c["cms"], torch, dt), threshold=float(c["thr"]),
                                              refinement="integral", integral_patch_size=c["p"]))
     if k == "crop":
         imgs = M.to_tensor([[m] for m in c["imgs"]], torch)
@@ -162,7 +172,7 @@ def run_impl(c, mods):
 
 
 # ---------------------------------------------------------------- the property, executable
-def oracle_rough(cms, thr, out, mods, locality=True):
+def oracle_rough(cms, thr, out, mods, locality=True, dtype="float32"):
     """C06 first sentence, clause by clause.  Returns None or a reason."""
     B, C = len(cms), len(cms[0])
     H, W = len(cms[0][0]), len(cms[0][0][0])
@@ -185,7 +195,7 @@ def oracle_rough(cms, thr, out, mods, locality=True):
     if locality and (B > 1 or C > 1):
         for s in range(B):
             for c in range(C):
-                alone = impl_rough([[cms[s][c]]], thr, mods)
+                alone = impl_rough([[cms[s][c]]], thr, mods, dtype)
                 here = [[x, y, v, 0, 0] for (x, y, v, s2, c2) in out if (s2, c2) == (s, c)]
                 if alone != here:
                     return (f"map (sample {s}, channel {c}): peaks in the batch {here[:4]} differ from the "
@@ -193,9 +203,10 @@ def oracle_rough(cms, thr, out, mods, locality=True):
     return None
 
 
-def oracle_refine(cms, thr, p, out, mods):
+def oracle_refine(cms, thr, p, out, mods, dtype="float32"):
     """C06 second sentence.  Returns the list of (reason, selector) of the failing clauses."""
-    rough = impl_rough(cms, thr, mods)
+    rough = impl_rough(cms, thr, mods, dtype)
+    ts = M.tol_scale(dtype)
     if [(v, s, c) for (_, _, v, s, c) in out] != [(v, s, c) for (_, _, v, s, c) in rough]:
         return [("refinement changed the number, order, values or indices of the peaks", None)]   # c06_refine_keeps_indices
     fails = []
@@ -203,7 +214,7 @@ def oracle_refine(cms, thr, p, out, mods):
         ok = (math.isfinite(x) and math.isfinite(y) and
               abs(x - x0) <= p / 2 and abs(y - y0) <= p / 2)
         if not ok:                                                            # c06_refine_bound_partial
-            r = (p - 1) // 2 if p % 2 else p // 2
+            r = p // 2      # the cells a p x p patch reads lie within radius p // 2 (odd and even p)
             sel = SEL_F9 if M.selector_F9(cms[s][c], int(x0), int(y0), r) else None
             fails.append((f"peak at cell {(x0, y0)} of map ({s},{c}) moved to {(x, y)}: more than half a patch "
                           f"(p={p})", sel))
@@ -213,18 +224,18 @@ def oracle_refine(cms, thr, p, out, mods):
         torch, pf, _ = mods
         for s in range(B):
             for c in range(C):
-                alone = peaks_out(pf.find_local_peaks(M.to_tensor([[cms[s][c]]], torch), threshold=float(thr),
+                alone = peaks_out(pf.find_local_peaks(M.to_tensor([[cms[s][c]]], torch, dtype), threshold=float(thr),
                                                       refinement="integral", integral_patch_size=p))
                 here = [(x, y) for (x, y, _, s2, c2) in out if (s2, c2) == (s, c)]
                 cells = [(x0, y0) for (x0, y0, _, s2, c2) in rough if (s2, c2) == (s, c)]
                 if len(alone) != len(here):
                     fails.append((f"map ({s},{c}): {len(here)} refined peaks in the batch, {len(alone)} alone", None))
                     continue
-                r = (p - 1) // 2 if p % 2 else p // 2
+                r = p // 2
                 for (xa, ya, _, _, _), (xb, yb), (x0, y0) in zip(alone, here, cells):
                     if M.selector_F9(cms[s][c], int(x0), int(y0), r):
                         continue            # division by a small / cancelling sum: ill-conditioned in float
-                    if not (abs(xa - xb) <= 1e-4 * (1 + abs(xa)) and abs(ya - yb) <= 1e-4 * (1 + abs(ya))):
+                    if not (abs(xa - xb) <= 1e-4 * ts * (1 + abs(xa)) and abs(ya - yb) <= 1e-4 * ts * (1 + abs(ya))):
                         fails.append((f"map ({s},{c}) peak at {(x0, y0)}: refined to {(xb, yb)} in the batch, "
                                       f"{(xa, ya)} when the map is processed alone", None))
     return fails
@@ -238,7 +249,7 @@ def close(a, b, tol):
 def compare(c, model, out):
     k = c["kind"]
     skipped = 0
-    if k in ("rough", "refine_none"):
+    if k in ("rough", "refine_none", "refine_other"):
         want = [[x, y, float(core.frac(v)), s, ch] for (x, y, v, s, ch) in model]
         if want != [[int(x), int(y), v, s, ch] for (x, y, v, s, ch) in out]:
             return f"peaks differ: impl {out[:6]} model {want[:6]}", 0
@@ -246,7 +257,8 @@ def compare(c, model, out):
     if k == "refine":
         if len(model) != len(out):
             return f"{len(out)} refined peaks, model {len(model)}", 0
-        r = (c["p"] - 1) // 2
+        p, ts = c["p"], M.tol_scale(c.get("dtype", "float32"))
+        r = p // 2
         # the grid cell of the i-th peak: brute-force maxima in torch.where order (sample, y, x, channel)
         rough = sorted((s, y, x, ch) for s, smp in enumerate(c["cms"]) for ch, m in enumerate(smp)
                        for (x, y, _) in M.strict_local_maxima(m, c["thr"]))
@@ -261,10 +273,10 @@ def compare(c, model, out):
             mx, my = float(core.frac(pt[0])), float(core.frac(pt[1]))
             (_, gy, gx, _) = rough[i]
             # conditioning of the division by the patch sum (float32 crop values carry ~2e-6 relative error)
-            sm, ab = M.patch_condition(c["cms"][s][ch], gx, gy, r)
+            sm, ab = M.patch_condition_p(c["cms"][s][ch], gx, gy, p)
             cond = float(ab / abs(sm)) if sm != 0 else 1e9
             for a, b in ((mx, x), (my, y)):
-                tol = ATOL + RTOL * abs(a) + 2e-5 * cond * (abs(a) + r + 1)
+                tol = ts * (ATOL + RTOL * abs(a) + 2e-5 * cond * (abs(a) + r + 1))
                 if not (math.isfinite(b) and close(a, b, tol)):
                     return f"peak {i} of map ({s},{ch}): impl {(x, y)} model {(mx, my)}", 0
         return None, skipped
@@ -309,11 +321,12 @@ def check_case(run, c, model, mods, stats):
         run.violation("failing-input", {"case": case_json(c), "impl_error": f"{type(e).__name__}: {e}"})
         return
     bad = []
-    if k in ("rough", "refine_none"):
-        r = oracle_rough(c["cms"], c["thr"], out, mods)
+    dt = c.get("dtype", "float32")
+    if k in ("rough", "refine_none", "refine_other"):
+        r = oracle_rough(c["cms"], c["thr"], out, mods, dtype=dt)
         bad = [(r, None)] if r else []
     elif k in ("refine", "refine_oracle_only"):
-        bad = oracle_refine(c["cms"], c["thr"], c["p"], out, mods)
+        bad = oracle_refine(c["cms"], c["thr"], c["p"], out, mods, dtype=dt)
     diff = None
     if model is not None:
         diff, skipped = compare(c, model, out)
@@ -328,6 +341,27 @@ def check_case(run, c, model, mods, stats):
     if diff:
         run.proof_broken.append(f"correspondence C06 model vs implementation: {diff}; case "
                                 f"{json.dumps(case_json(c))[:700]}")
+
+
+def oracle_nan(fl, thr, mods):
+    """find_local_peaks_rough on a float batch with NaN cells against the IEEE reading of the
+    property (brute force), plus locality.  Returns None or a reason."""
+    torch, pf, _ = mods
+    t = torch.tensor(fl, dtype=torch.float32)
+    out = peaks_out(pf.find_local_peaks_rough(t, threshold=thr))
+    B, C = len(fl), len(fl[0])
+    want = sorted((s, y, x, c, v) for s in range(B) for c in range(C)
+                  for (x, y, v) in M.strict_local_maxima_ieee(fl[s][c], thr))
+    got = [(s, int(y), int(x), c, v) for (x, y, v, s, c) in out]
+    if got != want:
+        return f"reported {got[:5]}, brute force with IEEE comparisons (torch.where order) {want[:5]}"
+    for s in range(B):
+        for c in range(C):
+            alone = peaks_out(pf.find_local_peaks_rough(torch.tensor([[fl[s][c]]], dtype=torch.float32), threshold=thr))
+            here = [[x, y, v, 0, 0] for (x, y, v, s2, c2) in out if (s2, c2) == (s, c)]
+            if alone != here:
+                return f"map ({s},{c}) with NaN cells elsewhere in the batch: in the batch {here[:4]}, alone {alone[:4]}"
+    return None
 
 
 def load_corpus():
@@ -358,12 +392,12 @@ def check(run: core.Run) -> int:
         for i in range(0, len(maps), 9):
             blk = maps[i:i + 9]
             cases.append({"kind": "refine", "cms": [blk[0:3], blk[3:6], blk[6:9]], "thr": F(-1) if i % 2 else F(1, 2),
-                          "p": 3, "family": "exhaustive_3x3"})
+                          "p": (3, 2, 4)[(i // 9) % 3], "family": "exhaustive_3x3"})
     model = core.coq_eval_sharded(PREAMBLE, [term(c) for c in cases], "run", RENDER, shard=80, jobs=12)
     stats = {"disagree": 0, "oracle_fail": 0, "skipped_zero_sum": 0}
     dist = {}
     for c, m in zip(cases, model):
-        for key in (c["kind"], "family:" + c.get("family", "-"), f"p={c.get('p', '-')}"):
+        for key in (c["kind"], "family:" + c.get("family", "-"), f"p={c.get('p', '-')}", "dtype:" + c.get("dtype", "-")):
             dist[key] = dist.get(key, 0) + 1
         if "cms" in c:
             dist[f"B{len(c['cms'])}C{len(c['cms'][0])}"] = dist.get(f"B{len(c['cms'])}C{len(c['cms'][0])}", 0) + 1
@@ -373,14 +407,20 @@ def check(run: core.Run) -> int:
         else:
             run.case(case_json(c), nontrivial=True)
         check_case(run, c, m, mods, stats)
-    # even patch sizes sample at half-pixel positions (bilinear midpoints): not modelled; oracle only
-    n_even = 200 if thorough else 40
-    for _ in range(n_even):
+    # maps holding NaN cells (oracle only; the Coq model has no NaN): the property read with IEEE comparisons —
+    # a cell is reported iff v > thr and v > every in-bounds neighbour, both false when a side is NaN; so a NaN
+    # cell is never a peak and suppresses its up-to-eight neighbours, every other cell is unaffected
+    n_nan = 200 if thorough else 40
+    for _ in range(n_nan):
         cms, fam = M.gen_batch(run.rng, 8)
-        c = {"kind": "refine_oracle_only", "cms": cms, "thr": M.gen_threshold(run.rng, cms),
-             "p": run.rng.choice([2, 4, 6]), "family": fam}
-        dist["refine_oracle_only(even p)"] = dist.get("refine_oracle_only(even p)", 0) + 1
-        check_case(run, c, None, mods, stats)
+        thr = M.gen_threshold(run.rng, cms)
+        fl, cells = M.with_nans(run.rng, cms)
+        dist["rough_with_nan_cells(oracle only)"] = dist.get("rough_with_nan_cells(oracle only)", 0) + 1
+        bad = oracle_nan(fl, float(thr), mods)
+        if bad:
+            stats["oracle_fail"] += 1
+            run.violation("failing-input", {"case": {"kind": "rough_nan", "cms_float": fl, "thr": str(thr),
+                                                     "nan_cells": cells, "family": fam}, "oracle": bad})
     run.obligation("correspondence: Peaks.run (Coq, vm_compute) == find_local_peaks_rough / find_local_peaks / "
                    "crop_bboxes∘make_centered_bboxes / integral_regression (/repo) on every case",
                    stats["disagree"] == 0, f"{stats['disagree']} disagreements")
@@ -391,6 +431,14 @@ def check(run: core.Run) -> int:
         run.notes.append("observation: integral_patch_size=1 did not raise")
     except Exception as e:
         run.notes.append(f"observation: integral_patch_size=1 raises {type(e).__name__} inside kornia (degenerate box)")
+    try:
+        pf.find_local_peaks(torch.tensor([[[[0., 1, 0]]]], dtype=torch.float16), threshold=0.5,
+                            refinement="integral", integral_patch_size=3)
+        run.notes.append("observation: float16 map with a singleton axis: integral refinement did not raise")
+    except Exception as e:
+        run.notes.append(f"observation: float16 map with a singleton axis (1x3): integral refinement raises {type(e).__name__} "
+                         f"inside kornia's crop_and_resize (float16 underflow of its epsilon); float32/float64 are fine; "
+                         f"such cases are kept out of the generated stream")
     o = impl_rough([[[[F(-20000)]]]], F(-30000), mods)
     run.notes.append(f"observation: a border cell with value <= -1e4 (kornia's geodesic border value) is not "
                      f"reported: impl on [[-20000]] thr -30000 -> {o} (the model agrees: ex_border_value_matters)")
@@ -406,13 +454,16 @@ def check(run: core.Run) -> int:
         run.sample(case_json(c))
     run.trusted += [
         "kornia.morphology.dilation (geodesic border = -1e4, centre + -1e4, max over the 3x3 window) modelled from its "
-        "source; kornia crop_and_resize on integer-cornered boxes modelled as exact pixels with 0 outside the map "
+        "source; kornia crop_and_resize modelled as exact pixels on integer-cornered boxes (odd patch sizes) and as the "
+        "mean of the 2x2 surrounding cells at half-pixel positions (even patch sizes), 0 outside the map "
         "(determined empirically; tied on every run for H,W >= 2; for H = 1 or W = 1 kornia replicates the singleton "
         "axis, which yields the same offsets: tied at the find_local_peaks level)",
         "torch.where order on the (B,H,W,C) permutation; float32 sums/divisions compared within tolerance",
     ]
-    run.assumptions += ["map values are finite and > -1e4 (kornia's border value); rectangular batches with B,C,H,W >= 1",
-                        "integral_patch_size odd and >= 3 for the model (even sizes: oracle only; size 1 raises in kornia)"]
+    run.assumptions += ["map values are finite and > -1e4 (kornia's border value) for the model (NaN cells: oracle only); "
+                        "rectangular batches with B,C,H,W >= 1; float32 / float64 / float16 inputs",
+                        "integral_patch_size >= 2, odd or even (size 1 is a single cell, not a patch: kornia raises on the "
+                        "degenerate box; logged as an observation)"]
     return run.finish()
 
 
@@ -423,12 +474,16 @@ def replay(run: core.Run, path: str) -> int:
     from sleap_nn.data.instance_cropping import make_centered_bboxes as mcb
     mods = (torch, pf, mcb)
     rep = json.load(open(path))
+    if rep["case"].get("kind") == "rough_nan":
+        bad = oracle_nan(rep["case"]["cms_float"], float(F(rep["case"]["thr"])), mods)
+        print(json.dumps({"oracle": bad}, default=str))
+        return 1 if bad else 0
     c = case_from_json(rep["case"])
     out = run_impl(c, mods)
     bad = None
-    if c["kind"] in ("rough", "refine_none"):
-        bad = oracle_rough(c["cms"], c["thr"], out, mods)
+    if c["kind"] in ("rough", "refine_none", "refine_other"):
+        bad = oracle_rough(c["cms"], c["thr"], out, mods, dtype=c.get("dtype", "float32"))
     elif c["kind"] in ("refine", "refine_oracle_only"):
-        bad = oracle_refine(c["cms"], c["thr"], c["p"], out, mods)
+        bad = oracle_refine(c["cms"], c["thr"], c["p"], out, mods, dtype=c.get("dtype", "float32"))
     print(json.dumps({"oracle": bad, "observed": out[:20]}, default=str))
     return 1 if bad else 0
